@@ -111,6 +111,24 @@ def asarray(I, x, dtype=None):
     return mk(d, dt)
 
 
+def is_single(dt):
+    """the dtype names a 32-bit (or narrower) float: values stored in such an array are rounded (not modelled exactly: an
+    uninterpreted rounding function, so nothing can be proved to survive the store unchanged)"""
+    if isinstance(dt, str):
+        s = dt.lstrip("<>=|")
+        return s in ("f4", "f2", "float32", "float16", "single", "half")
+    if isinstance(dt, Opaque):
+        h = str(dt.head)
+        if h == "np.dtype" and dt.args:
+            return is_single(dt.args[0])
+        return any(t in h for t in ("float32", "float16", ":single"))
+    return False
+
+
+def f32(x):
+    return z3.Function("round_to_float32", z3.RealSort(), z3.RealSort())(x)
+
+
 def norm_dtype(dt):
     if dt is None:
         return None
@@ -382,6 +400,8 @@ def setitem(I, a, idx, v):
         for x in fl:
             if x is None:
                 I.raise_py("TypeError", "float() argument must be a string or a real number, not 'NoneType'")
+    if getattr(a, "single", False):
+        fl = [SV(f32(to_z3(x, "real")), "real") if (num_kind(x) or type(x) in (int, float)) and not is_nan(x) else x for x in fl]
     lists = [s if isinstance(s, list) else [s] for s in sel_axes]
     for pos, val in zip(itertools.product(*lists), fl):
         d = a.data
@@ -648,6 +668,8 @@ def install(I, mkcls, meth):
         if not all(isinstance(x, int) for x in shp):
             raise Unsupported("array allocation with symbolic shape (concrete-shape numpy model)")
         r = NdArr(data=build(shp, [val] * size(shp)) if shp else val, dtype=norm_dtype(dt) or "float", tail=shp)
+        if is_single(dt):
+            r.single = True          # allocated as float32/float16: stores round
         if size(shp) == 0:
             r.data = build(shp, []) if len(shp) == 1 else [[] for _ in range(shp[0])] if shp[0] else []
         return r
@@ -661,7 +683,7 @@ def install(I, mkcls, meth):
     # ascontiguousarray / asanyarray: like asarray, an array that already has the requested dtype is returned as it is (no copy)
     reg("ascontiguousarray")(lambda i, a, k: asarray(i, a[0], k.get("dtype", a[1] if len(a) > 1 else None)))
     reg("asanyarray")(lambda i, a, k: asarray(i, a[0], k.get("dtype", a[1] if len(a) > 1 else None)))
-    reg("dtype")(lambda i, a, k: Opaque("np.dtype", (norm_dtype(a[0]) if not isinstance(a[0], Opaque) else a[0],)))
+    reg("dtype")(lambda i, a, k: Opaque("np.dtype", (a[0],)))
     reg("dot")(lambda i, a, k: dot(i, a[0], a[1]))
     reg("matmul")(lambda i, a, k: dot(i, a[0], a[1]))
     reg("cross")(lambda i, a, k: cross(i, a[0], a[1]))
